@@ -31,12 +31,12 @@ EXTENDS Naturals, Sequences, FiniteSets, SequencesExt, TLC, Json
 CONSTANTS TwoFields, Pairwise
 Templates == {"direct", "vec", "opt", "arr", "tup", "box", "result", "phantom", "assoc", "qassoc", "vecassoc",
               "selfbox", "selfvec", "selfkw", "selfmix", "selfassoc", "skipT", "skipNoInfoG", "skipNoInfo", "compactc", "concrete",
-              "compactp", "compactassoc", "assocnamed", "vecassocnamed"}
+              "compactp", "compactassoc", "assocnamed", "vecassocnamed", "selfqassoc"}
 Encoding == {"direct", "vec", "opt", "arr", "tup", "box", "result", "selfmix", "compactp"}        \* p itself is part of the encoding
-NeedsCfg == {"assoc", "qassoc", "vecassoc", "selfassoc", "compactassoc"}
+NeedsCfg == {"assoc", "qassoc", "vecassoc", "selfassoc", "selfqassoc", "compactassoc"}
 \* p::G and Vec<p::G> where the associated type is NAMED LIKE THE DERIVING TYPE G (its own trait): not a self reference
 NamedLikeSelf == {"assocnamed", "vecassocnamed"}
-SelfRef == {"selfbox", "selfvec", "selfkw", "selfmix", "selfassoc"}
+SelfRef == {"selfbox", "selfvec", "selfkw", "selfmix", "selfassoc", "selfqassoc"}
 Skipped == {"skipT", "skipNoInfoG", "skipNoInfo"}
 MentionsP == Templates \ {"selfbox", "selfvec", "selfkw", "skipNoInfo", "compactc", "concrete"}
 \* "splitattr": the decisive codec attribute of a member is the SECOND of two #[codec(..)] attributes on the item
@@ -74,7 +74,7 @@ WellFormed == \A i \in 1..Len(d.fields) : d.fields[i].p \in Ps
 BoundField(f) == f.t \in MentionsP /\ f.t \notin Skipped /\ f.t \notin SelfRef
 AssocBound(p) ==      \* is `p::A: TypeInfo` in the where-clause
   IF "custom" \in d.mods THEN \E i \in 1..Len(d.fields) : d.fields[i].p = p /\ d.fields[i].t \in NeedsCfg
-  ELSE \E i \in 1..Len(d.fields) : d.fields[i].p = p /\ d.fields[i].t \in {"assoc", "qassoc", "selfassoc"}
+  ELSE \E i \in 1..Len(d.fields) : d.fields[i].p = p /\ d.fields[i].t \in {"assoc", "qassoc", "selfassoc", "selfqassoc"}
        \* bound on the member type itself; for a self-referential member (not bound as a whole) the associated types
        \* of parameters mentioned inside it are bound on their own (fix cfbc6c9; before it this was the known finding)
 VecAssocBound(p) == "custom" \notin d.mods /\ \E i \in 1..Len(d.fields) : d.fields[i].p = p /\ d.fields[i].t = "vecassoc"
@@ -89,7 +89,7 @@ MemberOK(f) ==
     [] f.t = "compactassoc" -> TRUE                                         \* the member bound must give HasCompact AND TypeInfo
     [] f.t \in {"assoc", "qassoc"} -> AssocBound(f.p)
     [] f.t = "vecassoc" -> AssocBound(f.p) \/ VecAssocBound(f.p)
-    [] f.t = "selfassoc" -> AssocBound(f.p)                                 \* p::A inside the self-referential member is bound on its own
+    [] f.t \in {"selfassoc", "selfqassoc"} -> AssocBound(f.p)                                 \* p::A inside the self-referential member is bound on its own
 Predicted == \A i \in 1..Len(d.fields) : MemberOK(d.fields[i])
 Emit == WellFormed => PrintT(<<"GEN", ToJson([np |-> d.np, fields |-> d.fields, mods |-> SetToSeq(d.mods), skip |-> SetToSeq(SkipSet), predicted |-> Predicted])>>)
 \* design-level statement: the generated where-clause is sufficient for every definition of the grammar
